@@ -25,7 +25,9 @@ Inductive op :=
 | Acq (l : lock)
 | Rel (l : lock)
 | Acc (k : kind) (x : loc) (site : nat)
-| Fork (c : tid) (give : list lock).
+| Fork (c : tid) (give : list lock)
+| Post (c : lock)    (* a one-way signal on (object, token): close of a channel field, start of a child goroutine *)
+| Wait (c : lock).   (* observing that signal: a receive that returns because the channel is closed, the child's first step *)
 Definition event := (tid * op)%type.
 Definition trace := list event.
 
@@ -63,6 +65,7 @@ Definition step (s : lstate) (e : event) : option lstate :=
   | Rel l => if owns s (fst e) l then Some (upd s l None) else None
   | Acc _ _ _ => Some s
   | Fork c give => if forallb (owns s (fst e)) give then Some (give_all s c give) else None
+  | Post _ | Wait _ => Some s
   end.
 
 Fixpoint run (s : lstate) (tr : trace) : option lstate :=
@@ -76,7 +79,11 @@ Definition fork_fresh (tr : trace) : Prop :=
   forall i t c g, nth_error tr i = Some (t, Fork c g) ->
     c <> t /\ forall j e, j <= i -> nth_error tr j = Some e -> fst e <> c.
 
-Definition wf_trace (tr : trace) : Prop := (exists s, run init_state tr = Some s) /\ fork_fresh tr.
+(** a signal is observed only after it has been given *)
+Definition wait_after_post (tr : trace) : Prop :=
+  forall q t c, nth_error tr q = Some (t, Wait c) -> exists p t', p < q /\ nth_error tr p = Some (t', Post c).
+
+Definition wf_trace (tr : trace) : Prop := (exists s, run init_state tr = Some s) /\ fork_fresh tr /\ wait_after_post tr.
 
 Definition state_at (tr : trace) (k : nat) : option lstate := run init_state (firstn k tr).
 
@@ -88,6 +95,7 @@ Inductive hb (tr : trace) : nat -> nat -> Prop :=
 | hb_po i j t o1 o2 : i < j -> nth_error tr i = Some (t, o1) -> nth_error tr j = Some (t, o2) -> hb tr i j
 | hb_sw i j t1 t2 l : i < j -> nth_error tr i = Some (t1, Rel l) -> nth_error tr j = Some (t2, Acq l) -> hb tr i j
 | hb_fork i j t c g o : i < j -> nth_error tr i = Some (t, Fork c g) -> nth_error tr j = Some (c, o) -> hb tr i j
+| hb_post i j t1 t2 c : i < j -> nth_error tr i = Some (t1, Post c) -> nth_error tr j = Some (t2, Wait c) -> hb tr i j
 | hb_trans i j k : hb tr i j -> hb tr j k -> hb tr i k.
 
 Lemma hb_lt tr i j : hb tr i j -> i < j.
@@ -170,7 +178,7 @@ Proof.
   pose proof (state_at_S tr k (t, o) s Hn Hs) as Hst. rewrite Hs' in Hst. symmetry in Hst.
   unfold step in Hst; cbn [fst snd] in Hst.
   exists s'; split; [assumption|].
-  destruct o as [l1 | l1 | kk x site | c give].
+  destruct o as [l1 | l1 | kk x site | c give | c | c].
   - (* Acq l1 *)
     destruct (s l1) eqn:Hl1; [discriminate|]. inversion Hst; subst s'; clear Hst.
     destruct (lock_eqb l1 l) eqn:E.
@@ -216,6 +224,14 @@ Proof.
       * intros c0 Hc j o Hj Hnj. rewrite give_all_notin in Hc by assumption. eapply Hheld; eauto. lia.
       * intros Hc. rewrite give_all_notin in Hc by assumption.
         destruct (Hfree Hc) as (r & t0 & ? & ? & ? & ?). exists r, t0. repeat split; auto.
+  - (* Post *)
+    inversion Hst; subst s'; clear Hst. split.
+    + intros c0 Hc j o Hj Hnj. eapply Hheld; eauto. lia.
+    + intros Hc. destruct (Hfree Hc) as (r & t0 & ? & ? & ? & ?). exists r, t0. repeat split; auto.
+  - (* Wait *)
+    inversion Hst; subst s'; clear Hst. split.
+    + intros c0 Hc j o Hj Hnj. eapply Hheld; eauto. lia.
+    + intros Hc. destruct (Hfree Hc) as (r & t0 & ? & ? & ? & ?). exists r, t0. repeat split; auto.
 Qed.
 
 (** two accesses under a common mutex are ordered by happens-before *)
@@ -270,7 +286,9 @@ Record entry := mkE {
   e_clss : list N;      (* goroutine classes that may execute this site *)
   e_locks : list slock; (* must-hold lockset *)
   e_init : bool;        (* executed on a freshly allocated, not yet published object *)
-  e_fn : N              (* enclosing function (for reporting and waivers) *)
+  e_fn : N;             (* enclosing function (for reporting and waivers) *)
+  e_before : list N;    (* signals of the accessed object that only this thread gives, and only later *)
+  e_after : list N      (* signals of the accessed object this thread has already observed *)
 }.
 Record table := mkT { entries : list entry; singles : list N (* classes with at most one thread *) }.
 
@@ -287,11 +305,15 @@ Definition share (a b : entry) : bool :=
 Definition may_conc (S : list N) (a b : entry) : bool :=
   existsb (fun ca => existsb (fun cb => negb (N.eqb ca cb) || negb (memN ca S)) (e_clss b)) (e_clss a).
 Definition both_rd (a b : entry) : bool := kind_eqb (e_kind a) Rd && kind_eqb (e_kind b) Rd.
+(** one access is made before its thread gives a signal that the other thread has observed *)
+Definition sig_ordered (a b : entry) : bool :=
+  existsb (fun k => memN k (e_after b)) (e_before a) || existsb (fun k => memN k (e_after a)) (e_before b).
 
 (** the pair needs no further argument: different locations, two reads, init phase (safe publication),
     never in two threads, or a common mutex *)
 Definition pair_ok (S : list N) (a b : entry) : bool :=
-  negb (N.eqb (e_fld a) (e_fld b)) || both_rd a b || e_init a || e_init b || negb (may_conc S a b) || share a b.
+  negb (N.eqb (e_fld a) (e_fld b)) || both_rd a b || e_init a || e_init b || negb (may_conc S a b) || share a b
+  || sig_ordered a b.
 
 Definition lockset_ok_except (W : entry -> bool) (T : table) : bool :=
   forallb (fun a => forallb (fun b => pair_ok (singles T) a b || W a || W b) (entries T)) (entries T).
@@ -323,7 +345,9 @@ Definition conforms (tr : trace) : Prop :=
   (forall j t k x site, nth_error tr j = Some (t, Acc k x site) ->
      exists e, nth_error (entries T) site = Some e /\ e_fld e = snd x /\ e_kind e = k /\
                In (cls_of t) (e_clss e) /\
-               forall s, In s (e_locks e) -> holds_at tr j (inst (fst x) s) t)
+               (forall s, In s (e_locks e) -> holds_at tr j (inst (fst x) s) t) /\
+               (forall k, In k (e_before e) -> forall p t', nth_error tr p = Some (t', Post (fst x, k)) -> t' = t /\ j < p) /\
+               (forall k, In k (e_after e) -> exists q, q < j /\ nth_error tr q = Some (t, Wait (fst x, k))))
   /\ (forall t t', In (cls_of t) (singles T) -> cls_of t = cls_of t' -> t = t').
 
 (** safe publication: what a thread does to an object in its init phase happens-before every access of any
@@ -369,14 +393,14 @@ Theorem lockset_sound_except (W : entry -> bool) (tr : trace) :
                                     W e1 = false /\ W e2 = false).
 Proof.
   intros Hwf [Hconf Hsingle] Hsafe Hok i j t1 t2 k1 k2 x s1 s2 Hij Hi Hj Hne Hw HW.
-  destruct (Hconf _ _ _ _ _ Hi) as (e1 & He1 & Hf1 & Hk1 & Hc1 & Hl1).
-  destruct (Hconf _ _ _ _ _ Hj) as (e2 & He2 & Hf2 & Hk2 & Hc2 & Hl2).
+  destruct (Hconf _ _ _ _ _ Hi) as (e1 & He1 & Hf1 & Hk1 & Hc1 & Hl1 & Hb1 & Ha1).
+  destruct (Hconf _ _ _ _ _ Hj) as (e2 & He2 & Hf2 & Hk2 & Hc2 & Hl2 & Hb2 & Ha2).
   destruct (HW e1 e2 He1 He2) as [HW1 HW2].
   unfold lockset_ok_except in Hok. rewrite forallb_forall in Hok.
   specialize (Hok e1 (nth_error_In _ _ He1)). rewrite forallb_forall in Hok.
   specialize (Hok e2 (nth_error_In _ _ He2)). rewrite HW1, HW2, !orb_false_r in Hok.
   unfold pair_ok in Hok. rewrite !orb_true_iff in Hok.
-  destruct Hok as [[[[[Hfld | Hrd] | Hin1] | Hin2] | Hnc] | Hsh].
+  destruct Hok as [[[[[[Hfld | Hrd] | Hin1] | Hin2] | Hnc] | Hsh] | Hsig].
   - exfalso. rewrite Hf1, Hf2, N.eqb_refl in Hfld. discriminate.
   - exfalso. unfold both_rd in Hrd. apply andb_true_iff in Hrd. destruct Hrd as [Ha Hb].
     apply kind_eqb_eq in Ha. apply kind_eqb_eq in Hb. rewrite Hk1 in Ha. rewrite Hk2 in Hb.
@@ -388,6 +412,20 @@ Proof.
     destruct (may_conc_false _ _ _ _ Hnc Hc1 Hc2) as [Heq Hs]. apply Hne. apply Hsingle; assumption.
   - destruct (share_common _ _ Hsh) as (s & Hs1 & Hs2).
     eapply common_lock_ordered; [exact Hwf | exact Hij | exact Hi | exact Hj | apply Hl1; exact Hs1 | apply Hl2; exact Hs2].
+  - destruct Hwf as (_ & _ & Hwp). unfold sig_ordered in Hsig. apply orb_true_iff in Hsig. destruct Hsig as [Hsig | Hsig].
+    + (* e1 before k, e2 after k: access i, then the signal, then its observation, then access j *)
+      apply existsb_exists in Hsig. destruct Hsig as (k & Hkb & Hka). apply memN_In in Hka.
+      destruct (Ha2 k Hka) as (q & Hqj & Hq).
+      destruct (Hwp q t2 _ Hq) as (p & t' & Hpq & Hp).
+      destruct (Hb1 k Hkb p t' Hp) as [Ht Hip]. subst t'.
+      eapply hb_trans; [eapply hb_po; [exact Hip | exact Hi | exact Hp]|].
+      eapply hb_trans; [eapply hb_post; [exact Hpq | exact Hp | exact Hq]|].
+      eapply hb_po; [exact Hqj | exact Hq | exact Hj].
+    + (* the other way round is impossible when i < j *)
+      exfalso. apply existsb_exists in Hsig. destruct Hsig as (k & Hkb & Hka). apply memN_In in Hka.
+      destruct (Ha1 k Hka) as (q & Hqi & Hq).
+      destruct (Hwp q t1 _ Hq) as (p & t' & Hpq & Hp).
+      destruct (Hb2 k Hkb p t' Hp) as [Ht Hjp]. lia.
 Qed.
 
 Theorem lockset_sound (tr : trace) :
@@ -409,12 +447,12 @@ Qed.
 
 Lemma pair_ok_sym S a b : pair_ok S a b = true -> pair_ok S b a = true.
 Proof.
-  unfold pair_ok. rewrite !orb_true_iff. intros [[[[[H|H]|H]|H]|H]|H].
-  - left; left; left; left; left. rewrite N.eqb_sym. assumption.
-  - left; left; left; left; right. unfold both_rd in *. rewrite andb_comm. assumption.
-  - left; left; right. assumption.
+  unfold pair_ok. rewrite !orb_true_iff. intros [[[[[[H|H]|H]|H]|H]|H]|H].
+  - left; left; left; left; left; left. rewrite N.eqb_sym. assumption.
+  - left; left; left; left; left; right. unfold both_rd in *. rewrite andb_comm. assumption.
   - left; left; left; right. assumption.
-  - left; right. apply negb_true_iff in H. apply negb_true_iff.
+  - left; left; left; left; right. assumption.
+  - left; left; right. apply negb_true_iff in H. apply negb_true_iff.
     destruct (may_conc S b a) eqn:E; [|reflexivity]. exfalso.
     unfold may_conc in E. apply existsb_exists in E. destruct E as [cb [Hb E]].
     apply existsb_exists in E. destruct E as [ca [Ha E]].
@@ -424,10 +462,11 @@ Proof.
       - apply N.eqb_eq in E1; subst cb. rewrite N.eqb_refl. exact E.
       - rewrite N.eqb_sym, E1. reflexivity. }
     rewrite X in H; discriminate.
-  - right. unfold share in *. apply existsb_exists in H. destruct H as [s [Hs H]].
+  - left; right. unfold share in *. apply existsb_exists in H. destruct H as [s [Hs H]].
     apply existsb_exists in H. destruct H as [s' [Hs' He]]. apply slock_eqb_eq in He; subst s'.
     apply existsb_exists. exists s. split; [assumption|]. apply existsb_exists. exists s. split; [assumption|].
     apply slock_eqb_eq; reflexivity.
+  - right. unfold sig_ordered in *. rewrite orb_comm. assumption.
 Qed.
 
 Lemma bad_pairs_nil W T : bad_pairs W T = [] -> lockset_ok_except W T = true.
